@@ -196,7 +196,10 @@ convert_znum(void *dest, void *val, int val_id, int_t offset)
     Py_complex c = PyComplex_AsCComplex((PyObject *)val);
     if (c.real == -1.0 && PyErr_Occurred()) return -1;
 #ifndef _MSC_VER
-    *(double complex *)dest = c.real + I*c.imag;
+    /* store the parts separately: c.real + I*c.imag yields a NaN real part
+       for an infinite imaginary part */
+    ((double *)dest)[0] = c.real;
+    ((double *)dest)[1] = c.imag;
 #else
     *(_Dcomplex *)dest = _Cbuild(c.real,c.imag);
 #endif
